@@ -145,6 +145,11 @@ class Ref:
         raise RefUndefined('unset variable %r' % name)
 
     def store(self, name, value):
+        if self.frames:
+            f = self.frames[-1]
+            if name in f.params:            # a parameter hides everything global of that name, macros too
+                f.params[name] = value
+                return
         if name in self.macros:
             raise RefUndefined('assignment to macro %r' % name)
         if self.frames:
